@@ -680,11 +680,126 @@ def run_two_libs(st: Stats, case):
         shutil.rmtree(root, ignore_errors=True)
 
 
+# ---- a chain of three projects: C is external to A, A is external to B ------------------------------------------------------
+CHAIN_C = """module clib
+  !! module of the innermost library
+  implicit none
+  type c_t
+    !! type of C
+    integer :: cc
+  end type c_t
+contains
+  subroutine c_sub()
+    !! procedure of C
+  end subroutine c_sub
+end module clib
+"""
+CHAIN_A = """module amid
+  !! module of the middle library{reexport}
+  use clib
+  implicit none
+  {private}
+  type{ext} :: a_ext
+    !! type of A
+    integer :: own_a
+  end type a_ext
+  type a_plain
+    !! another type of A
+    integer :: p
+  end type a_plain
+contains
+  subroutine a_sub2()
+    !! procedure of A
+    call c_sub()
+  end subroutine a_sub2
+end module amid
+module zmod
+  !! a later module of the middle library
+  implicit none
+  type z_t
+    !! type of zmod
+    integer :: z
+  end type z_t
+end module zmod
+"""
+CHAIN_B = """module btop
+  !! application: see [[amid]] and [[a_ext]] and [[zmod]]
+  use amid
+  use zmod
+  implicit none
+  type(a_ext) :: v1
+  !! of A's extended type
+  type(a_plain) :: v2
+  !! of A's plain type
+  type(z_t) :: v3
+  !! of zmod's type
+contains
+  subroutine b_run()
+    !! calls A
+    call a_sub2()
+  end subroutine b_run
+end module btop
+"""
+
+
+def run_chain(st: Stats, case):
+    """A documents C's entities as external ones and is itself externalized: what A took from C does not spoil A's
+    description for B.  Variants: A re-exports C's module (default public) or keeps it private; A's type extends C's or not."""
+    _, reexport, extends = case
+    root = fordrun.new_root()
+    stratum = "chain-of-three"
+    feats = dict(a_opts="chain", form="relative", clash="", damage="", refs="plain", history="", reexport=reexport, extends=extends)
+    inp = dict(case=["chain", reexport, extends])
+    st.evaluations += 1
+    st.nontrivial.add(core.digest(inp))
+    try:
+        c = fordrun.build({"src/clib.f90": CHAIN_C}, dict(externalize=True, project="clib"), stage="write", root=root / "C", keep=True)
+        a_src = CHAIN_A.format(reexport=" (re-exports clib)" if reexport else "", private="" if reexport else "private :: c_t, c_sub",
+                               ext=", extends(c_t)" if extends else "")
+        a = fordrun.build({"src/amid.f90": a_src}, dict(externalize=True, project="amid", external={"clib": "../C/doc"}), stage="write", root=root / "A", keep=True)
+        st.transitions += 2
+        if c.error is not None or a.error is not None or a.stage_reached != "write":
+            st.violation("ford-failed-on-A", stratum, feats, inp, repr(c.error) + repr(a.error) + a.log[-200:], "the libraries are built")
+            st.stratum(stratum, 1)
+            return
+        b = fordrun.build({"src/btop.f90": CHAIN_B}, dict(external={"amid": "../A/doc"}, project="btop", display=["public", "private", "protected"]), stage="write", root=root / "B", keep=True)
+        st.transitions += 1
+        if b.error is not None or b.stage_reached != "write":
+            st.violation("run-of-B-aborted", stratum, dict(feats, error=type(b.error).__name__ if b.error else "incomplete"), inp, (repr(b.error) + " " + b.log[-200:])[:400], "B completes")
+            st.stratum(stratum, 1)
+            return
+        bad = 0
+        if "Could not" in b.log and "description" in b.log:
+            bad += 1
+            st.violation("external-description-rejected", stratum, feats, inp, [l for l in b.log.split("\n") if "Could not" in l][:2], "A's own modules.json is understood")
+        site = Site(b.out)
+        a_out = a.out.resolve()
+        linked = set()
+        for page, pg in site.pages.items():
+            for (tag, attr, url) in pg.links:
+                u = urllib.parse.urlsplit(url)
+                if attr != "href" or u.scheme or not u.path:
+                    continue
+                pth = os.path.normpath(os.path.join(os.path.dirname(site.root.resolve() / page), urllib.parse.unquote(u.path)))
+                if pth.startswith(str(a_out) + os.sep) and os.path.exists(pth):
+                    linked.add(Path(pth).stem)
+        want = {"amid", "a_ext", "a_plain", "zmod", "z_t"}
+        if not want <= linked:
+            bad += 1
+            st.violation("external-entity-not-linked", stratum, dict(feats, entity=sorted(want - linked)[0]), inp, sorted(linked), sorted(want))
+        st.states.add(core.digest([reexport, extends, sorted(linked)]))
+        st.stratum(stratum, bad)
+    finally:
+        shutil.rmtree(root, ignore_errors=True)
+
+
 def work(chunk):
     st = Stats()
     for case in chunk:
         if case[0] == "two-libs":
             run_two_libs(st, case)
+        elif case[0] == "chain":
+            run_chain(st, case)
         else:
             run_history(st, case)
     return st
@@ -709,6 +824,9 @@ def gen_cases(tier):
         for order in ("12", "21"):
             for b_url in (None, "https://b.example.org/docs"):
                 yield ("two-libs", form, order, b_url)
+    for reexport in (True, False):
+        for extends in (True, False):
+            yield ("chain", reexport, extends)
     forms = ["relative", "absolute", "http", "http-slash"]
     for a1 in ("default", "private", "nosrc", "alpha", "hideundoc"):
         for form in forms:
@@ -755,6 +873,8 @@ def replay(path):
     c = rec["input"]["case"]
     if c[0] == "two-libs":
         run_two_libs(st, tuple(c))
+    elif c[0] == "chain":
+        run_chain(st, tuple(c))
     else:
         run_history(st, (c[0], c[1], c[2], c[3], tuple(c[4]) if c[4] else None, c[5]) + tuple(c[6:]))
     for v in st.violations:
